@@ -20,6 +20,11 @@ fields of that packet.  A strobe that belongs to no accepted ITP, a consumed hea
 taken within 8 cycles are violations with their own mechanism names.  Classifier for the known defect: the mechanism
 `*_truncated_to_lsb` is used only if the output port is one bit wide and shows bit 0 of the field; everything else is `*_wrong`.
 
+Second DUT (35 % of the cases, 30-60 headers): the real USB3ProtocolLayer (protocol/layer.py) on a port-only stub link
+layer; headers enter at the link's `header_source`, go through the layer's own demultiplexer, and the layer's
+`bus_interval` output must show the full 14-bit counter of each ITP within 4 cycles of its transfer (ITPs are spaced
+wider than that).  Checks the wiring and width of `bus_interval`; nothing else of the layer is judged.
+
 Deviation from DESIGN.md section 7: "other types untouched" is checked as "no update strobe and not consumed"; that the
 outputs hold their value between packets is not demanded (see below).
 Mutation results (quick tier): caught delta from DW0[18:31], counter from DW0[6:20] / DW0[5:18] / DW1, 13-bit counter and
@@ -39,8 +44,10 @@ RULE = ("case = 250-600 headers: timestamp packets with random / one-hot / all-o
         "distinct = hash of the header sequence and gaps")
 REQUIRED_BINS = ["itp_random", "itp_one_hot_counter_bit", "itp_one_hot_delta_bit", "itp_all_ones", "itp_zero",
                  "itp_single_bit_change", "itp_back_to_back", "itp_after_foreign_header", "foreign_type_one_bit_off",
-                 "foreign_type_other", "counter_upper_bits_set", "delta_upper_bits_set", "counter_top_bit_set", "delta_top_bit_set"]
-REQUIRED_EVENTS = ["itp_accepted", "update_strobes", "counter_compared", "delta_compared", "foreign_headers_presented"]
+                 "foreign_type_other", "counter_upper_bits_set", "delta_upper_bits_set", "counter_top_bit_set", "delta_top_bit_set",
+                 "layer_itp_taken", "layer_counter_upper_bits_set", "layer_counter_top_bit_set"]
+REQUIRED_EVENTS = ["itp_accepted", "update_strobes", "counter_compared", "delta_compared", "foreign_headers_presented",
+                   "layer_bus_interval_compared"]
 ASSUMPTIONS = ["headers are presented as the protocol layer's demultiplexer does: an ITP is held until taken, other types vanish after 1-4 cycles",
                "outputs are judged only in the cycle update_received is high (free-running time keeping between packets is allowed)",
                "the update latency must be constant within a case and 0..3 cycles"]
@@ -56,7 +63,7 @@ def itp_fields(dw0):
     return stamp & 0x3FFF, (stamp >> 14) & 0x1FFF
 
 
-def run_case(rng, tier, res):
+def _run_receiver(rng, tier, res):
     from luna.gateware.usb.usb3.protocol.timestamp import TimestampPacketReceiver
     dut = TimestampPacketReceiver()
     hs = dut.header_sink
@@ -222,5 +229,138 @@ def run_case(rng, tier, res):
             mech = "delta_truncated_to_lsb" if (od == (d & 1) and len(dut.delta) == 1) else "delta_wrong"
             report(mech, "ITP dw0=%08x (cycle %d): delta=%#x expected %#x (13 bits, DW0[31:19]); port width %d"
                    % (dw0, a, od, d, len(dut.delta)))
+    res.desc["cycles_receiver"] = b.cycle
     res.nontrivial = res.bins.get("counter_upper_bits_set", 0) >= 20 and res.bins.get("delta_upper_bits_set", 0) >= 20 \
         and res.events.get("foreign_headers_presented", 0) >= 10
+
+
+# ======================================================================================== in the protocol layer
+
+LAYER_WINDOW = 4          # cycles after the header transfer within which bus_interval must show the counter
+
+
+def _run_layer(rng, res):
+    """The receiver as wired inside the real USB3ProtocolLayer (anchored file protocol/layer.py): headers enter through a stub
+    link layer's `header_source`, the layer's own demultiplexer presents them to all handlers, and the layer's `bus_interval`
+    output must show the full 14-bit counter of every timestamp packet within LAYER_WINDOW cycles of its transfer."""
+    from amaranth import Elaboratable, Module, Signal
+    from luna.gateware.usb.usb3.protocol.layer import USB3ProtocolLayer
+    from luna.gateware.usb.usb3.link.header import HeaderQueue
+    from luna.gateware.usb.usb3.link.data import DataHeaderPacket
+    from luna.gateware.usb.stream import SuperSpeedStreamInterface
+
+    class StubLink:                      # the ports USB3ProtocolLayer reads/drives on its link layer; no behaviour
+        def __init__(self):
+            self.header_sink = HeaderQueue()
+            self.header_source = HeaderQueue()
+            self.data_source = SuperSpeedStreamInterface()
+            self.data_header_from_host = DataHeaderPacket()
+            self.data_source_complete = Signal()
+            self.data_source_invalid = Signal()
+            self.data_sink = SuperSpeedStreamInterface()
+            self.data_sink_send_zlp = Signal()
+            self.data_sink_sequence_number = Signal(5)
+            self.data_sink_endpoint_number = Signal(4)
+            self.data_sink_length = Signal(range(1024 + 1))
+            self.data_sink_direction = Signal()
+            self.trained = Signal()
+            self.ready = Signal()
+            self.in_reset = Signal()
+
+    link = StubLink()
+    layer = USB3ProtocolLayer(link_layer=link)
+
+    class Top(Elaboratable):
+        def elaborate(self, platform):
+            m = Module()
+            m.submodules.layer = layer
+            return m
+
+    src = link.header_source
+    hdr = src.header
+    n = rng.randint(30, 60)
+    script = []
+    for _ in range(n):
+        if rng.random() < 0.7:
+            stamp = rng.choice([rng.getrandbits(27), rng.getrandbits(27), 1 << rng.randrange(0, 14), (1 << 27) - 1, 0x3FFF, 0x2000 | rng.getrandbits(13)])
+            script.append(((stamp << 5) | ITP_TYPE, rng.randint(LAYER_WINDOW + 2, LAYER_WINDOW + 6)))
+        else:       # other header types: taken (or not) by the layer's other handlers; only shown for a few cycles
+            t = rng.choice([0b00000, 0b00100, 0b01000, ITP_TYPE ^ 1, ITP_TYPE ^ 16, rng.choice([x for x in range(32) if x != ITP_TYPE])])
+            script.append(((rng.getrandbits(27) << 5) | t, rng.randint(1, 4)))
+    res.sig("layer", script)
+    res.desc["layer_first"] = [("%08x" % d, g) for d, g in script[:4]]
+
+    b = Bench(Top(), domain="ss", freq=125e6, max_cycles=n * 40 + 200)
+    b.watch(src.valid, src.ready, hdr.dw0, layer.bus_interval)
+    expect = []           # [cycle of transfer, counter, dw0, satisfied]
+    seen = set()
+
+    def report(mech, detail):
+        if mech not in seen:
+            seen.add(mech)
+            res.violation(mech, "[protocol layer] " + detail)
+
+    def driver():
+        b.set(link.ready, 1); b.set(link.trained, 1); b.set(link.header_sink.ready, 1)
+        b.set(src.valid, 0)
+        for _ in range(3):
+            yield
+        for dw0, hold in script:
+            b.set(hdr.dw0, dw0); b.set(hdr.dw1, rng.getrandbits(32)); b.set(hdr.dw2, rng.getrandbits(32))
+            b.set(src.valid, 1)
+            if dw0 & 0x1F == ITP_TYPE:
+                waited = 0
+                while True:
+                    yield
+                    if b.get(src.ready):
+                        break
+                    waited += 1
+                    if waited > MAX_ACCEPT_WAIT:
+                        report("timestamp_packet_not_accepted_by_layer", "ITP dw0=%08x not taken from the link layer's header queue within %d cycles" % (dw0, MAX_ACCEPT_WAIT))
+                        break
+                b.set(src.valid, 0)
+                for _ in range(hold):       # quiet time: the next header comes after the judgement window
+                    yield
+            else:
+                for _ in range(hold):
+                    yield
+                    if b.get(src.ready):
+                        break
+                b.set(src.valid, 0)
+                yield
+        for _ in range(LAYER_WINDOW + 2):
+            yield
+
+    def monitor(b):
+        t = b.cycle
+        bi = b.get(layer.bus_interval)
+        for e in expect:
+            if not e[3] and 0 <= t - e[0] <= LAYER_WINDOW and bi == e[1]:
+                e[3] = True
+        if expect and not expect[-1][3] and t - expect[-1][0] == LAYER_WINDOW:
+            e = expect[-1]
+            report("protocol_layer_bus_interval_wrong", "ITP dw0=%08x taken at cycle %d: bus_interval never showed %#x within %d cycles (now %#x, port width %d)"
+                   % (e[2], e[0], e[1], LAYER_WINDOW, bi, len(layer.bus_interval)))
+        if t - (expect[-1][0] if expect else -99) == LAYER_WINDOW:
+            res.event("layer_bus_interval_compared")
+        if b.get(src.valid) and b.get(src.ready):
+            dw0 = b.get(hdr.dw0)
+            if dw0 & 0x1F == ITP_TYPE:
+                c, _ = itp_fields(dw0)
+                expect.append([t, c, dw0, False])
+                res.bin("layer_itp_taken")
+                if c > 0xFF:
+                    res.bin("layer_counter_upper_bits_set")
+                if c >> 13:
+                    res.bin("layer_counter_top_bit_set")
+
+    b.add_driver(driver())
+    b.add_monitor(monitor)
+    b.run()
+    return b.cycle
+
+
+def run_case(rng, tier, res):
+    _run_receiver(rng, tier, res)
+    if rng.random() < 0.35:
+        res.cycles += _run_layer(rng, res)
